@@ -37,11 +37,14 @@ def run(ck: Checker, prog: Program, tier: str):
     if entry.params[:2] != ["records", "settings"]:
         raise AnalysisError(f"{ENTRY}: expected parameters (records, settings), found {entry.params}")
     targets = []
-    for regname in ("PROCESSING_METHODS", "TRADITIONAL_PROCESSING_REGISTER"):
-        reg = prog.registry("processing", regname)
-        for key, val in reg.items():
-            if isinstance(val, ast.Name) and f"processing.{val.id}" in prog.funcs:
-                fq = f"processing.{val.id}"
+    # every function the two dispatchers can hand the work to (lookup table or if-ladder alike)
+    from .common import dispatch_table
+    from . import c01 as _c01
+    for disp, subject, keys in (("processing.process", "processing_method", ("traditional", "azimuthal", "diffuse_field", "psd")),
+                                ("processing.traditional_hvsr_processing_base", "method_to_combine_horizontals", sorted(set(_c01.ALIASES) | set(_c01.TIME_DOMAIN)))):
+        for key, (callee, _args) in sorted(dispatch_table(prog, disp, subject, keys).items()):
+            if callee is not None and f"processing.{callee}" in prog.funcs:
+                fq = f"processing.{callee}"
                 if fq not in targets:
                     targets.append(fq)
     ck.floor("C09.R1", len(targets), 7, "processing functions reachable through the registries")
